@@ -52,7 +52,11 @@ def gate(g, part, neg=False):
 def build(kit):
     """Create the sub-model: every concrete asset kind. Returns the objects by role (creation order matters)."""
     o = {}
-    o['src'] = Source('S', PartGenerator('p', 1.0), kit['src_c'], INF if kit['budget'] == 'inf' else kit['budget'])
+    if kit.get('default_source'):
+        # both defaults: no part generator (default one is named after the source's id) and cycle time 0
+        o['src'] = Source('S', starting_parts=5 if kit['budget'] == 'inf' else kit['budget'])
+    else:
+        o['src'] = Source('S', PartGenerator('p', 1.0), kit['src_c'], INF if kit['budget'] == 'inf' else kit['budget'])
     o['P'] = Tgt('P', [o['src']], kit['p_c'])
     o['B'] = Buffer('B', [o['P']], kit['b_delay'], kit['b_cap'])
     gh = PartHandler('GH', None, kit['gh_c'])
@@ -71,7 +75,7 @@ def build(kit):
     o['S'] = Sch([(1, 'a'), (0.5, 'b'), (2, 'c')], 'sch', is_cyclical=kit['cyc'])
     o['ps'] = PeriodicSensor(kit['iv'], [AttributeProbe('received_parts_count', o['K'])], 'ps',
                              data_capacity=INF if kit['cap'] == 'inf' else kit['cap'])
-    o['os'] = OutputPartSensor(o['P'], [AttributeProbe('name', None)], kit['n'], 'os')
+    o['os'] = OutputPartSensor(o['P'], [AttributeProbe('quality', None)], kit['n'], 'os')
     o['cms'] = Cms(o['M'], 'cms')
     o['cms'].add_sensor(o['ps'])
     return o
@@ -120,8 +124,11 @@ def run_twin(case, late):
     for i in range(case.get('older', 0)):
         s_old = System()
         older.append((s_old, PartHandler(f'old{i}')))
+        if case.get('older_ran'):
+            s_old.simulate(1, print_summary=False)      # a replaced system that has already run must be refused too
     s = System()
     env = s.env
+    between = bool(case.get('between')) and late
     o = {}
     checks = {}
 
@@ -133,7 +140,11 @@ def run_twin(case, late):
                 if o[r].env is not env:
                     raise Violation('C20.init-immediately', f'{type(o[r]).__name__} created inside an event at {env.now} '
                                     f'was not initialised immediately (env is {o[r].env!r})')
-    if late:
+    if between:
+        # created between two simulate() calls: the simulation has started, so it is initialised immediately as well
+        s.simulate(T, print_summary=False)
+        create()
+    elif late:
         env.schedule_event(T, -7, create, EventType.OTHER_HIGH_PRIORITY)
     else:
         create()
@@ -148,9 +159,9 @@ def run_twin(case, late):
     env.schedule_event(T + 7, -7, lambda: o['P'].restore_functionality(), EventType.RESTORE)
     total = T + case['hz']
     parts = case.get('split') or [1]
-    done = 0
+    done = T if between else 0
     for i, f in enumerate(parts):
-        d = total * f if i < len(parts) - 1 else total - done
+        d = (total - (T if between else 0)) * f if i < len(parts) - 1 else total - done
         s.simulate(d, print_summary=False)      # continuing never re-initialises (the library asserts on a second call)
         done += d
     # ---- registration
